@@ -9,7 +9,7 @@ CLAIMS = {
    text="Machine-checked iff-theorems (Coq) over all binary64/int64 values: each constructor model accepts exactly the documented domain (NaN rejected). The models are executable; the extracted OCaml is compared with the real constructors on boundary-exhaustive and seeded random inputs on every run, and every implementation answer is also judged against the documented domain.",
    note="Model: coq/theories/Pure/Config.v, Retry.v (hand-written). Tie: differential run against /repo (harness/cmd/pure vs extracted OCaml). Real-number reading via Flocq B2R: standard-library classical-reals axioms. Error message texts not modelled."),
  "C05": dict(category="proof", ref="5.5", technique="Coq proof + executable-model correspondence",
-   text="Coq theorems for every parameter, attempt number and random-source outcome: fixed, random range, limit, jitter pass-through / band / never-negative / saturation, stop-stays-stop, exponential value and upper clamp. Partial: the ordering of the two saturated float products (jitter) and 'never below initial' (exponential) are float-rounding facts assumed, not yet proved; the correspondence run checks them per case against the envelope computed independently.",
+   text="Coq theorems for every parameter, attempt number and random-source outcome: fixed, random range, limit, jitter pass-through / band / never-negative / saturation, stop-stays-stop, exponential value and upper clamp. The float facts (ordering of the two saturated jitter products, exponential never below initial for Pow > 1, monotone in the Pow oracle) are proved through Flocq's real-number semantics (Properties/C05Float.v).",
    note="Model: Pure/Retry.v (hand-written; random source = explicit word stream; math.Pow = oracle value supplied by the harness from Go). Tie: differential run against /repo with a deterministic fastrand stub. Axiom-free."),
  "C18": dict(category="proof", ref="5.18", technique="Coq proof + executable-model correspondence",
    text="Coq theorems for all byte strings: the parser model never slices/indexes out of range (no panic), accepts exactly key=fields with documented defaults and decimal-int64 / float fields, returns exactly the direct constructor's value, rejects everything else with an error; layers fold in insertion order. Model compared with the real builder on grammar-generated, mutated and raw-byte strings each run.",
